@@ -349,12 +349,21 @@ package kcp
 //@ pred (kcp *KCP) wfH() = len(kcp.rcv_buf.segments) == len(kcp.rcv_buf.marks)
 //@      && forall s uint32 :: in(kcp.rcv_buf.marks, s) ==> 0 <= itimediff(s, kcp.rcv_nxt) && itimediff(s, kcp.rcv_nxt) < kcp.rcv_wnd
 //
+// INV-Q (C01): the receive queue holds the segments with the consecutive sequence numbers that
+// end just before rcv_nxt - released strictly in order, none twice, none skipped.
+//@ pred (kcp *KCP) rcvQ() = forall i int :: 0 <= i && i < kcp.rcv_queue.rlen() ==> kcp.rcv_queue.at(i).sn == subu32(kcp.rcv_nxt, kcp.rcv_queue.rlen() - i)
+//
 //@ func KCP.parse_data
+//@   ensures @C01 [receive-queue-in-sequence-order] old(kcp.rcvQ()) ==> kcp.rcvQ()
+//@   ensures @C01 [stale-or-out-of-window-segment-is-dropped] (itimediff(newseg.sn, old(kcp.rcv_nxt)) < 0 || itimediff(newseg.sn, addu32(old(kcp.rcv_nxt), old(kcp.rcv_wnd))) >= 0)
+//@        ==> kcp.rcv_nxt == old(kcp.rcv_nxt) && kcp.rcv_queue.rlen() == old(kcp.rcv_queue.rlen()) && len(kcp.rcv_buf.segments) == old(len(kcp.rcv_buf.segments))
+//@   ensures @C01 [release-only-advances] itimediff(kcp.rcv_nxt, old(kcp.rcv_nxt)) >= 0 && kcp.rcv_queue.rlen() - old(kcp.rcv_queue.rlen()) == itimediff(kcp.rcv_nxt, old(kcp.rcv_nxt))
 //@   requires kcp.wfR() && kcp.wfW() && kcp.wfH() && len(newseg.data) <= 1500
 //@   modifies kcp.rcv_nxt, all(kcp.rcv_queue), kcp.rcv_queue.elements[..], all(kcp.rcv_buf), kcp.rcv_buf.segments[..], mapof(kcp.rcv_buf.marks)
 //@   ensures @C04 kcp.wfR() && kcp.wfW() && kcp.wfH()
 //@   ensures kcp.rcv_queue.sameOrFresh() && kcp.rcv_buf.sameOrFresh()
 //@   loop 1 invariant kcp.wfR() && kcp.wfW() && kcp.wfH() && kcp.rcv_queue.sameOrFresh() && kcp.rcv_buf.sameOrFresh()
+//@   loop 1 invariant (old(kcp.rcvQ()) ==> kcp.rcvQ()) && itimediff(kcp.rcv_nxt, old(kcp.rcv_nxt)) >= 0 && kcp.rcv_queue.rlen() - old(kcp.rcv_queue.rlen()) == itimediff(kcp.rcv_nxt, old(kcp.rcv_nxt))
 //
 //@ func KCP.Send
 //@   requires kcp.wfR() && kcp.wfM() && kcp.wfSq()
@@ -395,6 +404,8 @@ package kcp
 //@ pred sameOrFreshSlice(a []ackItem, b []ackItem) = ref(a) == ref(b) || fresh(a)
 //
 //@ func KCP.Input
+//@   ensures @C01 [receive-queue-in-sequence-order] old(kcp.rcvQ()) ==> kcp.rcvQ()
+//@   loop 1 invariant old(kcp.rcvQ()) ==> kcp.rcvQ()
 //@   requires kcp.wf()
 //@   modifies all(kcp), all(kcp.snd_queue), kcp.snd_queue.elements[..], all(kcp.snd_buf), kcp.snd_buf.elements[..]
 //@   modifies all(kcp.rcv_queue), kcp.rcv_queue.elements[..], all(kcp.rcv_buf), kcp.rcv_buf.segments[..], mapof(kcp.rcv_buf.marks)
@@ -410,6 +421,9 @@ package kcp
 //@   loop 1 invariant kcp.snd_queue == old(kcp.snd_queue) && kcp.snd_buf == old(kcp.snd_buf) && kcp.rcv_queue == old(kcp.rcv_queue) && kcp.rcv_buf == old(kcp.rcv_buf)
 //
 //@ func KCP.Recv
+//@   ensures @C01 [receive-queue-in-sequence-order] old(kcp.rcvQ()) ==> kcp.rcvQ()
+//@   loop 1 invariant old(kcp.rcvQ()) ==> kcp.rcvQ()
+//@   loop 2 invariant old(kcp.rcvQ()) ==> kcp.rcvQ()
 //@   requires kcp.wf()
 //@   modifies kcp.rcv_nxt, kcp.probe, all(kcp.rcv_queue), kcp.rcv_queue.elements[..], all(kcp.rcv_buf), kcp.rcv_buf.segments[..], mapof(kcp.rcv_buf.marks), buffer[..]
 //@   ensures @C04 kcp.wf()
@@ -418,6 +432,7 @@ package kcp
 //@   loop 2 invariant kcp.wfR() && kcp.wfW() && kcp.wfH() && kcp.rcv_queue.sameOrFresh() && kcp.rcv_buf.sameOrFresh()
 //
 //@ func KCP.Update
+//@   ensures @C01 [receive-queue-in-sequence-order] old(kcp.rcvQ()) ==> kcp.rcvQ()
 //@   requires kcp.wf()
 //@   modifies all(kcp), all(kcp.snd_queue), kcp.snd_queue.elements[..], all(kcp.snd_buf), kcp.snd_buf.elements[..], kcp.buffer[..], all(DefaultSnmp)
 //@   ensures kcp.wf()
